@@ -271,6 +271,37 @@ def closure_programs(rnd):
                     L += ['    for i in R(%d):' % key(), '        x = ' + rhs]
                 L += ['    return T(%d, %s)' % (key(), call)]
                 out.append('\n'.join(L) + '\n')
+    # one helper NAME defined on several merging paths, each definition closing over another variable: every
+    # definition that may reach the call keeps its own closure variables live across the later control statement
+    for ctrl in ('if', 'ifelse', 'while', 'for'):
+        for shape in ('branches', 'elif', 'loopdef', 'branch-redef'):
+            for swap in (False, True):
+                u, v = ('y', 'x') if swap else ('x', 'y')
+                L = ['def f(a, b, c):', '    x = T(%d, a)' % key(), '    y = T(%d, b)' % key()]
+                if shape == 'branches':
+                    L += ['    if P(%d, %s):' % (key(), rnd.choice('abc')), '        def g():', '            return T(%d, %s)' % (key(), u),
+                          '    else:', '        def g():', '            return T(%d, %s)' % (key(), v)]
+                elif shape == 'elif':
+                    L += ['    if P(%d, a):' % key(), '        def g():', '            return T(%d, %s)' % (key(), u),
+                          '    elif P(%d, b):' % key(), '        def g():', '            return T(%d, %s, a)' % (key(), v),
+                          '    else:', '        def g():', '            return T(%d, c)' % key()]
+                elif shape == 'loopdef':
+                    L += ['    def g():', '        return T(%d, %s)' % (key(), u),
+                          '    for j in R(%d):' % key(), '        def g():', '            return T(%d, %s)' % (key(), v)]
+                else:
+                    L += ['    def g():', '        return T(%d, %s)' % (key(), u),
+                          '    if P(%d, %s):' % (key(), rnd.choice('abc')), '        def g():', '            return T(%d, %s)' % (key(), v)]
+                asg = ['x = T(%d, b)' % key(), 'y = T(%d, c)' % key()]
+                if ctrl == 'if':
+                    L += ['    if P(%d, %s):' % (key(), rnd.choice('abc'))] + ['        ' + t for t in asg]
+                elif ctrl == 'ifelse':
+                    L += ['    if P(%d, %s):' % (key(), rnd.choice('abc'))] + ['        ' + t for t in asg] + ['    else:', '        c = T(%d, c)' % key()]
+                elif ctrl == 'while':
+                    L += ['    n = 0', '    while n < 2 and P(%d, n):' % key(), '        n += 1'] + ['        ' + t for t in asg]
+                else:
+                    L += ['    for i in R(%d):' % key()] + ['        ' + t for t in asg]
+                L += ['    return T(%d, g())' % key()]
+                out.append('\n'.join(L) + '\n')
     return out
 
 
@@ -369,7 +400,8 @@ def check(run):
             try:
                 with warnings.catch_warnings():
                     warnings.simplefilter('ignore')
-                    g = api.to_graph(f, recursive=False)
+                    with vlib.time_limit(60):
+                        g = api.to_graph(f, recursive=False)
             except Exception as e:  # noqa
                 failures.append(('conversion failed with %s: %s' % (type(e).__name__, str(e)[:160]), src))
                 continue
